@@ -81,9 +81,9 @@ def switch_on_type(f, prog=None):
         if s_.get('k') == 'if' and id(s_) not in in_chain and prog is not None:
             arms = []
             cur = s_
-            while isinstance(cur, dict) and cur.get('k') == 'if' and type_mems(cur['c']):
+            while isinstance(cur, dict) and cur.get('k') == 'if' and type_mems(cur['c'], f):
                 in_chain.add(id(cur))
-                arms.append((cur['c'], cur['then']))
+                arms.append((q.expand(f, cur['c']), cur['then']))
                 cur = cur.get('else')
                 while isinstance(cur, dict) and cur.get('k') == 'block' and len(cur['s']) == 1 and cur['s'][0].get('k') == 'if':
                     cur = cur['s'][0]
@@ -131,7 +131,10 @@ def switch_on_type(f, prog=None):
     return out
 
 
-def type_mems(c):
+def type_mems(c, f=None):
+    """the reads of the _type tag in c; with f given also through a local that only names it (`const Type t = _type;`)"""
+    if f is not None:
+        c = q.expand(f, c)
     return [w for w in walk_expr(c) if w.get('k') == 'mem' and w.get('f') == '_type']
 
 
